@@ -132,20 +132,20 @@ func (p *Program) newInterpreter(cfg Config) *interpreter {
 
 // EntryResult aggregates the exploration of one entry.
 type EntryResult struct {
-	Entry        string
-	Stats        Stats
-	Violations   []*Violation
-	Inconclusive []string // reasons (unsupported, budget, unknown, vacuous, ...)
-	Reached      map[string]int
-	Expected     []string
-	Outcomes     map[string]int
-	Samples      []string
-	Funcs        map[string]int // interpreted functions -> calls
-	InitFailed   map[string]string
-	Solver       solver.Stats
-	Wall         time.Duration
-	AbortMsgs    map[string]int
-	MaxAlloc     uint64
+	Entry           string
+	Stats           Stats
+	Violations      []*Violation
+	Inconclusive    []string // reasons (unsupported, budget, unknown, vacuous, ...)
+	Reached         map[string]int
+	Expected        []string
+	Outcomes        map[string]int
+	Samples         []string
+	Funcs           map[string]int // interpreted functions -> calls
+	InitFailed      map[string]string
+	Solver          solver.Stats
+	Wall            time.Duration
+	AbortMsgs       map[string]int
+	MaxAlloc        uint64
 	SolverQueries   int
 	SolverUnknown   int
 	SolverTime      time.Duration
@@ -290,6 +290,9 @@ func (p *Program) RunEntry(name string, cfg Config, workers int) *EntryResult {
 					i = p.newInterpreter(cfg)
 					var err error
 					slv, err = solver.Start(cfg.Solver, cfg.SolverTimeout)
+					if err == nil && os.Getenv("GOSYM_DUMP") != "" {
+						slv.KeepScript = true
+					}
 					if err != nil {
 						mu.Lock()
 						inconc["cannot start solver: "+err.Error()] = true
